@@ -101,6 +101,7 @@ type c08Srv struct {
 	faultAt time.Time
 	deliv   bool
 	delivTo string
+	gets    int // GET requests seen (connect-stall)
 	offset  int
 	total   int
 	calls   int            // tools/call requests seen
@@ -215,12 +216,16 @@ func (s *c08Srv) serveConn(c net.Conn) {
 				io.WriteString(c, httpHead(405, "text/plain", "", 0))
 				continue
 			}
-			if s.sc.At == "connect-stall" {
+			if s.sc.At == "connect-stall" || s.sc.At == "connect-stall2" {
 				// the stream's response headers never come: the client is still shaking hands
 				s.mu.Lock()
 				s.calls = s.sc.NCalls
+				s.gets++
+				first := s.gets == 1
 				s.mu.Unlock()
-				close(s.callsCh)
+				if first {
+					close(s.callsCh)
+				}
 				return
 			}
 			io.WriteString(c, httpHead(200, "text/event-stream", "Cache-Control: no-cache\r\n", -1))
@@ -233,6 +238,10 @@ func (s *c08Srv) serveConn(c net.Conn) {
 		}
 		if req.Method == http.MethodDelete {
 			io.Copy(io.Discard, req.Body)
+			if s.sc.Fault == "stall" && s.sc.At == "done" {
+				// the peer has gone silent for good: it reads the DELETE and says nothing
+				return
+			}
 			io.WriteString(c, httpHead(200, "text/plain", "", 0))
 			continue
 		}
@@ -499,7 +508,26 @@ func c08Run(sc c08Scenario) (res c08Result) {
 		res.Broken = "unknown client " + sc.Client
 		return
 	}
-	if sc.At == "connect-stall" {
+	if sc.At == "connect-stall2" {
+		// a first handshake attempt gives up at its deadline; the second one is the one Close() interrupts
+		fstart := time.Now()
+		fctx, fcancel := context.WithTimeout(context.Background(), 300*time.Millisecond)
+		fdone := make(chan struct{})
+		go func() { cl.Initialize(fctx, &mcp.InitializeRequest{}); close(fdone) }()
+		select {
+		case <-fdone:
+			fcancel()
+		case <-time.After(4 * time.Second):
+			// the handshake call ignores its context while the stream's response headers are outstanding
+			fcancel()
+			res.Calls = []c08Call{{Hung: true, CtxEndMs: ms(fstart.Add(300 * time.Millisecond)), EndMs: ms(time.Now())}}
+			res.FaultMs = -1
+			go cl.Close()
+			srv.closeAll()
+			return
+		}
+	}
+	if sc.At == "connect-stall" || sc.At == "connect-stall2" {
 		// Close() while the handshake is still waiting for the stream's response headers: the handshake ends, and what the
 		// client holds towards the (still living, silent) server is released
 		res.Calls = make([]c08Call, 1)
